@@ -86,3 +86,127 @@ func (b *B) switchExhaustiveOn(rule, construct string, fc *FC, v *RF, t types.Ty
 		b.R.Fail(rule, construct, b.pos(fc.Fn), "declared constants without a case and no panicking default: "+strings.Join(missing, ","))
 	}
 }
+
+// pathCountRange: minimum and maximum number of instructions satisfying pred
+// along any entry→return path of an acyclic function (panicking paths are
+// ignored). ok=false when the function has loops.
+func (fc *FC) pathCountRange(pred func(in ssa.Instruction) bool) (min, max int, ok bool) {
+	if len(fc.Ctx.Loops()) > 0 {
+		return 0, 0, false
+	}
+	type mm struct{ lo, hi int }
+	memo := map[int]*mm{}
+	var walk func(b *ssa.BasicBlock) *mm
+	walk = func(b *ssa.BasicBlock) *mm {
+		if r, ok := memo[b.Index]; ok {
+			return r
+		}
+		n := 0
+		for _, in := range b.Instrs {
+			if pred(in) {
+				n++
+			}
+		}
+		var res *mm
+		switch b.Instrs[len(b.Instrs)-1].(type) {
+		case *ssa.Return:
+			res = &mm{n, n}
+		case *ssa.Panic:
+			res = nil
+		default:
+			for _, s := range fc.Ctx.LiveSuccs(b) {
+				r := walk(s)
+				if r == nil {
+					continue
+				}
+				if res == nil {
+					res = &mm{r.lo + n, r.hi + n}
+				} else {
+					if r.lo+n < res.lo {
+						res.lo = r.lo + n
+					}
+					if r.hi+n > res.hi {
+						res.hi = r.hi + n
+					}
+				}
+			}
+		}
+		memo[b.Index] = res
+		return res
+	}
+	r := walk(fc.Fn.Blocks[0])
+	if r == nil {
+		return 0, 0, false
+	}
+	return r.lo, r.hi, true
+}
+
+// isIncrement: `*a = *a + 1` (same address, compared by normal form: go/ssa
+// does no CSE, so the two address computations are distinct values).
+func (fc *FC) isIncrement(in ssa.Instruction) bool {
+	st, ok := in.(*ssa.Store)
+	if !ok {
+		return false
+	}
+	bo, ok := st.Val.(*ssa.BinOp)
+	if !ok || bo.Op.String() != "+" {
+		return false
+	}
+	ld, ok := bo.X.(*ssa.UnOp)
+	if !ok || (ld.X != st.Addr && !fc.Val(ld.X).Equal(fc.Val(st.Addr))) {
+		return false
+	}
+	c, ok := bo.Y.(*ssa.Const)
+	return ok && c.Value != nil && c.Value.ExactString() == "1"
+}
+
+// implementorsOf lists the named types of the module (T or *T) implementing iface.
+func (b *B) implementorsOf(iface *types.Interface) []types.Type {
+	var out []types.Type
+	for _, t := range b.A.W.namedTypes {
+		if types.Implements(t, iface) {
+			out = append(out, t)
+		} else if types.Implements(types.NewPointer(t), iface) {
+			out = append(out, types.NewPointer(t))
+		}
+	}
+	sort.Slice(out, func(i, j int) bool { return out[i].String() < out[j].String() })
+	return out
+}
+
+func (b *B) methodOf(t types.Type, name string) *ssa.Function {
+	ms := b.A.W.Prog.MethodSets.MethodSet(t)
+	for i := 0; i < ms.Len(); i++ {
+		if ms.At(i).Obj().Name() == name {
+			fn := b.A.W.Prog.MethodValue(ms.At(i))
+			if fn != nil && fn.Synthetic != "" {
+				if obj, ok := ms.At(i).Obj().(*types.Func); ok {
+					if d := b.A.W.Prog.FuncValue(obj); d != nil {
+						return d
+					}
+				}
+			}
+			return fn
+		}
+	}
+	return nil
+}
+
+// staticCallees: module functions statically called from fn (transitively).
+func (b *B) staticCallees(fn *ssa.Function) []*ssa.Function {
+	seen := map[*ssa.Function]bool{fn: true}
+	out := []*ssa.Function{fn}
+	for i := 0; i < len(out); i++ {
+		for _, blk := range out[i].Blocks {
+			for _, in := range blk.Instrs {
+				if c, ok := in.(ssa.CallInstruction); ok {
+					if f := c.Common().StaticCallee(); f != nil && b.A.W.NameOf[f] != "" && !seen[f] {
+						seen[f] = true
+						out = append(out, f)
+					}
+				}
+			}
+		}
+	}
+	return out
+}
